@@ -790,79 +790,38 @@ def write_if_changed(path, text):
 
 
 def main():
+    """Regenerate every piece; prints one line `FAILED <piece>: <message>` per piece whose source left the translatable
+    subset (a stub is written so that the Lean obligations about that piece fail); exit status 3 if any failed."""
     rd = lambda p: open(os.path.join(REPO, "src", "catii", p), encoding="utf-8").read()
-    status = 0
-    try:
-        write_if_changed(os.path.join(GEN, "FitDtype.lean"), FitDtype().run(rd("iindexes.py")))
-    except (Unsupported, StopIteration, SyntaxError) as e:
-        print("translate: fit_dtype outside translatable subset: %s" % e, file=sys.stderr)
-        status = 3
-    try:
-        write_if_changed(os.path.join(GEN, "Consts.lean"),
-                         gen_consts(rd("indxio.py"), rd("iindexes.py"), rd("ccubes.py"), rd("xcubes.py")))
-    except (Unsupported, StopIteration, SyntaxError, KeyError) as e:
-        print("translate: INDX tables/constants outside translatable subset: %s" % e, file=sys.stderr)
-        status = 3
-    try:
-        text, n = gen_purity([("ffuncs", rd("ffuncs.py")), ("xfuncs", rd("xfuncs.py"))])
-        write_if_changed(os.path.join(GEN, "Purity.lean"), text)
-    except (Unsupported, SyntaxError, KeyError) as e:
-        print("translate: aggregate constructors outside translatable subset: %s" % e, file=sys.stderr)
-        status = 3
-    try:
-        text, _ops = gen_indx_fileops(rd("indxio.py"))
-        write_if_changed(os.path.join(GEN, "IndxFileOps.lean"), text)
-    except (Unsupported, SyntaxError, KeyError, IndexError) as e:
-        print("translate: IndxIO.save uses its file object outside the translatable subset: %s" % e, file=sys.stderr)
-        status = 3
-    try:
-        text, n = gen_method_purity([("ffuncs", rd("ffuncs.py")), ("xfuncs", rd("xfuncs.py"))])
-        write_if_changed(os.path.join(GEN, "PurityMethods.lean"), text)
-    except (Unsupported, SyntaxError, KeyError, IndexError) as e:
-        print("translate: aggregate fill/reduce methods outside translatable subset: %s" % e, file=sys.stderr)
-        status = 3
-    try:
-        import translate_pyx
-        text = translate_pyx.generate(rd("set_operations.pyx"))
-        write_if_changed(os.path.join(GEN, "KernelsGen.lean"), text)
-    except (translate_pyx.Unsupported, SyntaxError, KeyError, IndexError, AttributeError) as e:
-        print("translate: set_operations.pyx kernels outside the translatable subset: %s" % e, file=sys.stderr)
-        # leave a stub so that the obligation fails in Lean rather than silently re-using the previous translation
-        write_if_changed(os.path.join(GEN, "KernelsGen.lean"),
-                         "import CatiiModel.Kernels\n-- translation FAILED: %s\n" % str(e).replace("\n", " ")[:300])
-        status = 3
-    try:
-        import translate_walk
-        write_if_changed(os.path.join(GEN, "WalkGen.lean"), translate_walk.generate(rd("ccubes.py")))
-    except (translate_walk.Unsupported, SyntaxError, KeyError, IndexError, AttributeError, StopIteration) as e:
-        print("translate: ccube._walk outside the translatable subset: %s" % e, file=sys.stderr)
-        write_if_changed(os.path.join(GEN, "WalkGen.lean"),
-                         "import CatiiModel.Cube\n-- translation FAILED: %s\n" % str(e).replace("\n", " ")[:300])
-        status = 3
-    try:
-        import translate_eq
-        write_if_changed(os.path.join(GEN, "EqGen.lean"), translate_eq.generate(rd("iindexes.py")))
-    except (translate_eq.Unsupported, SyntaxError, KeyError, IndexError, AttributeError, StopIteration) as e:
-        print("translate: iindex.__eq__/__ne__ outside the translatable subset: %s" % e, file=sys.stderr)
-        write_if_changed(os.path.join(GEN, "EqGen.lean"),
-                         "import CatiiModel.IIndex\n-- translation FAILED: %s\n" % str(e).replace("\n", " ")[:300])
-        status = 3
-    try:
-        import translate_indx
-        write_if_changed(os.path.join(GEN, "IndxSaveGen.lean"), translate_indx.generate(rd("indxio.py")))
+    import translate_pyx
+    import translate_walk
+    import translate_eq
+    import translate_indx
+    failed = {}
+    ERR = (Unsupported, translate_pyx.Unsupported, translate_walk.Unsupported, translate_eq.Unsupported, translate_indx.Unsupported,
+           StopIteration, SyntaxError, KeyError, IndexError, AttributeError)
+
+    def piece(name, path, gen, stub_import=None):
         try:
-            write_if_changed(os.path.join(GEN, "IndxLoadGen.lean"), translate_indx.generate_load(rd("indxio.py")))
-        except (translate_indx.Unsupported, SyntaxError, KeyError, IndexError, AttributeError, StopIteration) as e:
-            print("translate: IndxIO.load outside the translatable subset: %s" % e, file=sys.stderr)
-            write_if_changed(os.path.join(GEN, "IndxLoadGen.lean"),
-                             "import CatiiModel.Indx\n-- translation FAILED: %s\n" % str(e).replace("\n", " ")[:300])
-            status = 3
-    except (translate_indx.Unsupported, SyntaxError, KeyError, IndexError, AttributeError, StopIteration) as e:
-        print("translate: IndxIO.save outside the translatable subset: %s" % e, file=sys.stderr)
-        write_if_changed(os.path.join(GEN, "IndxSaveGen.lean"),
-                         "import CatiiModel.Indx\n-- translation FAILED: %s\n" % str(e).replace("\n", " ")[:300])
-        status = 3
-    return status
+            write_if_changed(os.path.join(GEN, path), gen())
+        except ERR as e:
+            msg = str(e).replace("\n", " ")[:300]
+            failed[name] = msg
+            print("FAILED %s: %s" % (name, msg), file=sys.stderr)
+            if stub_import:
+                write_if_changed(os.path.join(GEN, path), "import %s\n-- translation FAILED: %s\n" % (stub_import, msg))
+
+    piece("fit_dtype", "FitDtype.lean", lambda: FitDtype().run(rd("iindexes.py")))
+    piece("consts", "Consts.lean", lambda: gen_consts(rd("indxio.py"), rd("iindexes.py"), rd("ccubes.py"), rd("xcubes.py")))
+    piece("purity", "Purity.lean", lambda: gen_purity([("ffuncs", rd("ffuncs.py")), ("xfuncs", rd("xfuncs.py"))])[0])
+    piece("indx_fileops", "IndxFileOps.lean", lambda: gen_indx_fileops(rd("indxio.py"))[0])
+    piece("purity_methods", "PurityMethods.lean", lambda: gen_method_purity([("ffuncs", rd("ffuncs.py")), ("xfuncs", rd("xfuncs.py"))])[0])
+    piece("kernels", "KernelsGen.lean", lambda: translate_pyx.generate(rd("set_operations.pyx")), "CatiiModel.Kernels")
+    piece("walk", "WalkGen.lean", lambda: translate_walk.generate(rd("ccubes.py")), "CatiiModel.Cube")
+    piece("eq", "EqGen.lean", lambda: translate_eq.generate(rd("iindexes.py")), "CatiiModel.IIndex")
+    piece("indx_save", "IndxSaveGen.lean", lambda: translate_indx.generate(rd("indxio.py")), "CatiiModel.Indx")
+    piece("indx_load", "IndxLoadGen.lean", lambda: translate_indx.generate_load(rd("indxio.py")), "CatiiModel.Indx")
+    return 3 if failed else 0
 
 
 if __name__ == "__main__":
